@@ -13,6 +13,7 @@ import (
 	"verifharness/core"
 	"verifharness/hs"
 	"verifharness/pg"
+	"verifharness/tr"
 )
 
 // C20 - ParseParameters is total and counts placeholders correctly.
@@ -298,6 +299,72 @@ func (ch c20) Run(c *core.Ctx) {
 		}
 	}
 	cl.Finish()
+	// Describe over a transport whose k-th Write is interrupted half-way with a temporary (timeout) error
+	// (what a write deadline does to a message larger than the socket buffer - ParameterDescription is the
+	// largest message of the exchange): whatever ParameterDescription the client gets announces the
+	// returned length and unspecified types only
+	if c.Begin(40000000) {
+		for qi, q := range []string{"select 1", "select $1", "select ?, ?, ?", "select $40000", "select $65535", "select $3 ?", strings.Repeat("?,", 700)} {
+			if qi%nb != c.Batch%nb || (c.Batch >= nb && qi < nb) {
+				continue
+			}
+			n := len(wire.ParseParameters(q))
+			for k := 1; k <= 12; k++ {
+				conn := tr.NewConn(sess)
+				conn.NoLog = true
+				conn.TempWriteAt = k
+				env.L.DialConn(conn)
+				conn.Send(append(append(append(pg.Startup([][2]string{{"user", "u"}}), pg.Parse("", q, nil)...), pg.Describe('S', "")...), pg.Sync()...))
+				conn.Quiesce()
+				conn.CloseWrite()
+				if !conn.WaitClosed() {
+					c.Inconclusive("connection did not close (C20 interrupted-write workload)")
+					return
+				}
+				out := conn.Out()
+				msgs, rest, err := pg.ParseStream(out)
+				cs := map[string]any{"query": trim(q, 100), "interrupted_write": k}
+				c.Count("interrupted_write_describes", 1)
+				if conn.TempFired() > 0 {
+					c.Count("interrupted_writes_delivered", 1)
+				}
+				if err != nil {
+					c.Violate("interrupted", "after an interrupted write: reply not well-formed", fmt.Sprintf("query %q, write %d interrupted half-way: %v after %s", trim(q, 100), k, err, trim(pg.Kinds(msgs), 200)), cs)
+					break
+				}
+				bad := ""
+				for _, m := range msgs {
+					if m.T != 't' {
+						continue
+					}
+					c.Count("interrupted_describe_counts_compared", 1)
+					if len(m.OIDs) != n {
+						bad = fmt.Sprintf("announced %d, returned %d", len(m.OIDs), n)
+					}
+					for _, o := range m.OIDs {
+						if o != 0 {
+							bad = fmt.Sprintf("announces type %d for an unspecified placeholder", o)
+						}
+					}
+				}
+				if tail := out[len(out)-rest:]; rest >= 7 && tail[0] == 't' {
+					if got := int(tail[5])<<8 | int(tail[6]); got != n {
+						bad = fmt.Sprintf("interrupted ParameterDescription announces %d, returned %d", got, n)
+					}
+					for j := 7; j < len(tail); j++ {
+						if tail[j] != 0 {
+							bad = "interrupted ParameterDescription announces a type for an unspecified placeholder"
+						}
+					}
+				}
+				if bad != "" {
+					c.Violate("interrupted", "after an interrupted write: ParameterDescription differs from ParseParameters", fmt.Sprintf("query %q, write %d interrupted half-way: %s; reply %s + %d bytes", trim(q, 100), k, bad, trim(pg.Kinds(msgs), 200), rest), cs)
+					break
+				}
+				c.Eval(fmt.Sprintf("interrupted describe %d %d", qi, k), true)
+			}
+		}
+	}
 	// concurrent callers (several connections preparing the same fresh text at once use the
 	// function concurrently): every caller must get the full answer
 	rounds := 150
